@@ -9,6 +9,7 @@ import (
 
 	coraza "github.com/corazawaf/coraza/v3"
 	"github.com/corazawaf/coraza/v3/internal/verif/probe"
+	"github.com/corazawaf/coraza/v3/internal/verif/vrt"
 	"github.com/corazawaf/coraza/v3/types"
 )
 
@@ -88,6 +89,9 @@ func Run(w coraza.WAF, r Req, opt Options) *probe.Outcome {
 // including ProcessLogging (not Close).
 func Drive(tx types.Transaction, r Req, o *probe.Outcome) {
 	call := func(name string, it *types.Interruption, err error) bool {
+		if YieldBetweenCalls && vrt.Scheduler != nil {
+			vrt.Scheduler.Yield("between API calls")
+		}
 		s := name + ":" + probe.Itr(it)
 		if err != nil {
 			s += " err=" + err.Error()
@@ -142,6 +146,11 @@ func Drive(tx types.Transaction, r Req, o *probe.Outcome) {
 	it, err = tx.ProcessResponseBody()
 	call("P4", it, err)
 }
+
+// YieldBetweenCalls adds a scheduling point after every phase call of Drive
+// (only under a controlled scheduler): a thread can then be preempted between
+// its evaluation and its logging.
+var YieldBetweenCalls bool
 
 // Form returns the header that selects the urlencoded body processor.
 func Form() [2]string { return [2]string{"Content-Type", "application/x-www-form-urlencoded"} }
